@@ -1,323 +1,947 @@
 """Translator, part 2: depccg/grammar/en.py, ja.py, __init__.py  ->  coq/GenEn.v, GenJa.v, GenGuess.v  (fail-closed).
 
-Every combinator (pattern pair, side conditions, result expression, label, symbol, head flag), the helper
-predicates, the rule-key computation of apply_binary_rules, the per-result body of apply_unary_rules and
-guess_combinator_by_triplet are translated from the Python `ast` into Gallina terms in the error monad of Unify.v.
-Anything outside the supported subset raises Fail -> exit status != 0 -> the tie is broken.
+usage: gen_grammar.py <repo> <coq dir> [en] [ja] [guess]       (no part named = all three)
+Every part is translated on its own: a part that cannot be translated is reported on stderr (naming only that part, exit
+status 1) and its old output file is left alone; the other requested parts are still written.  The thin wrappers
+gen_grammar_en.py / gen_grammar_ja.py / gen_grammar_guess.py run one part each, so that a check can make only the files
+IT needs an obligation (`gens=('tables', 'grammar_en')`).
+
+WHAT IS TRANSLATED.  Every combinator of the literal `combinators` table (pattern pair, side conditions, result
+expression, label, symbol, head flag), the rule-key computation of apply_binary_rules, the per-result body of
+apply_unary_rules and guess_combinator_by_triplet, from the Python `ast` into Gallina terms in the error monad of Unify.v.
+Anything outside the supported subset raises Fail -> the part is not written -> the tie is broken.
+
+CANONICAL FORM.  The generated text is a NORMAL FORM of the Python code, so that semantically identical sources give
+byte-identical Gallina (and the proofs over the generated definitions are not touched by a refactoring).  A combinator
+becomes a DECISION TREE
+
+    tree ::= do v<k>_ <- prim atom..atom; tree            a primitive that may raise (left_of, right_of, base_of, feature_of,
+                                                           uget, functor_of, arg_of, feature_items, first_is_ascii_letter)
+           | if atom then tree else tree                   atom : bool, never a constant, never a negation
+           | do m_ <- unify lit_i lit_j atom atom;         Unification(p, q)(x, y)
+             match m_ with Some u<k>_ => tree | None => tree end
+           | Ok_ None | Ok_ (Some {| rcat := atom; op_string := atom; op_symbol := atom; head_is_left := b |})
+    atom ::= x | y | result | v<k>_ | lit_i | text | pure primitive applied to atoms (is_fun, cat_eqb, eq_str, text_eqb,
+             text_in, show, cat_xor, cat_in, pair_in, Fun _ s _, clear_features)
+
+obtained by evaluating the function body symbolically in continuation-passing style (= normalising with the monad laws):
+ (a) calls of private module-level functions (`_name`) are INLINED, whatever their body looks like (statements, early
+     returns, locals): the arguments are evaluated first, left to right, to atoms, then the body is translated with the
+     `return`s continuing into the caller's continuation.  No helper definitions are emitted.  Recursion -> Fail.
+ (b) control flow: `not` in a test swaps the branches; `and` / `or` (in tests and in value position), conditional
+     expressions, `if c: return ..` followed by more statements, `elif` chains and nested guards all become nested
+     `if atom then .. else ..` with the continuation duplicated; tests on constants are folded; `a ^ "text"` is False.
+ (c) local variables disappear: a local is bound to the ATOM of its value (atoms are pure, so the binding can be
+     substituted anywhere); every sub-expression that may raise is bound by `do v<k>_ <- ..` at the point where Python
+     evaluates it (operands left to right, callee before arguments, arguments before the call, keyword values of
+     CombinatorResult in the order written), so the ORDER of possibly-raising steps is Python's.  Bound variables are
+     named by nesting depth (`v<k>_`, `u<k>_`), independent of Python identifiers; the loop variable of apply_unary_rules
+     is `result`.  Bound-method values (`f = x.functor`) are atoms too and may only be called.
+ (c') along one path of the tree a test on an atom that was already tested is decided, and a primitive step that was already
+     taken (same primitive, same atoms) reuses the variable bound the first time - it succeeded, so it succeeds again with the
+     same value (all values are immutable).  `r = x.right; r.is_functor and r.left == ..` and
+     `x.right.is_functor and x.right.left == ..` are the same tree.
+ (d) module-level constants (a string, a tuple/list of strings, `Category.parse("..")`, a tuple/list of those) that are
+     assigned exactly once are resolved by name; category literals are numbered lit_0, lit_1, .. in order of first
+     occurrence in the generated text.
+ (e) docstrings, comments, annotations, `pass`, blank lines and code after a `return` are irrelevant.
+ (f) apply_binary_rules / apply_unary_rules are executed symbolically over list values ("fresh empty list", "the non-None
+     results of every combinator on key K, in table order", "one result per entry of unary_rules[x]") with the tests
+     `seen_rules is None`, `K in seen_rules`, `x in unary_rules` as atoms and the same splitting of not/and/or; accepted
+     list builders are the accumulator loop, the list comprehension (also `for r in (c(*K),)`, `:=`), a generator of all
+     answers filtered by `is not None`, and guard clauses returning `[]`.  The resulting decision tree must be EXACTLY
+        if seen_rules is None then collect K else if SK in seen_rules then collect K else []
+        if x in unary_rules then map body unary_rules[x] else []
+     otherwise Fail.
+Types (cat / text / bool / feature / feature items / bound method / result / None) are tracked for every atom and
+checked at every primitive, so that an ill-typed use is a translator failure rather than a Coq type error.
 """
-import ast, os, sys
+import ast, os, re, sys
 sys.path.insert(0, os.path.dirname(os.path.abspath(__file__)))
 from gallina import lit, lits, toks
 from gen_tables import Fail, write_if_changed
 
-METHODS = {'clear_features', 'arg', 'functor', 'unifies', 'items', 'keys', 'values'}
+CAT, TEXT, BOOL, FEAT, ITEMS, METH, CRES, NONE = 'cat', 'text', 'bool', 'feature', 'feature-items', 'bound-method', 'result', 'None'
+ATTR_PRIMS = {'left': ('left_of', CAT), 'right': ('right_of', CAT), 'base': ('base_of', TEXT), 'feature': ('feature_of', FEAT)}
+METHODS = {'functor', 'clear_features', 'arg', 'unifies', 'items', 'keys', 'values'}
+MAX_NODES = 40000
+# names with a fixed meaning in the translation and where they must be imported from (None: a builtin, must not be bound at all)
+FIXED = {'Unification': ('depccg.unification', 'Unification', 0), 'CombinatorResult': ('depccg.types', 'CombinatorResult', 0),
+         'Category': ('depccg.cat', 'Category', 0), 'ascii_letters': ('string', 'ascii_letters', 0), 'str': None, 'set': None, 'list': None}
+
+
+class E:
+    """an atom: a pure (never raising) typed expression"""
+    __slots__ = ('op', 'args', 'ty')
+
+    def __init__(self, op, args, ty):
+        self.op, self.args, self.ty = op, tuple(args), ty
+
+
+def Bool(b):
+    return E('bool', (bool(b),), BOOL)
+
+
+def Text(s):
+    return E('text', (s,), TEXT)
+
+
+def App(f, args, ty):
+    return E('app', (f,) + tuple(args), ty)
+
+
+def neg(a):
+    if a.op == 'bool':
+        return Bool(not a.args[0])
+    if a.op == 'app' and a.args[0] == 'negb':
+        return a.args[1]
+    return App('negb', [a], BOOL)
+
+
+class Matcher:
+    """a Unification(p, q) object held by a local: fresh, answered True (state u), or spent"""
+    def __init__(self, px, py, state='fresh', u=None):
+        self.px, self.py, self.state, self.u = px, py, state, u
+
+
+class Ctx:
+    """what `return v`, falling off the end and `L.append(v)` mean for the statements being translated"""
+    def __init__(self, ret, fall, append=None):
+        self.ret, self.fall, self.append = ret, fall, append
+
+
+def is_doc(st):
+    return isinstance(st, ast.Pass) or (isinstance(st, ast.Expr) and isinstance(st.value, ast.Constant))
+
+
+def is_none(n):
+    return isinstance(n, ast.Constant) and n.value is None
+
+
+def cstr(n):
+    return n.value if isinstance(n, ast.Constant) and isinstance(n.value, str) else None
 
 
 class T:
     def __init__(self, src, name):
         self.name = name
         self.mod = ast.parse(src)
-        self.lits = {}
-        self.helpers = {}
-        self.funcs = {n.name: n for n in self.mod.body if isinstance(n, ast.FunctionDef)}
-        self.consts = {}       # module-level NAME = Category.parse("...")
-        self.const_lists = {}  # module-level NAME = [Category.parse("..."), ...]
+        self.funcs = {}
+        self.consts = {}
         self.pattern_vars = set()
+        self.lits = {}
+        self.nodes = 0
+        self.fresh = 0
+        count = {}
         for n in self.mod.body:
-            if isinstance(n, ast.Assign) and len(n.targets) == 1 and isinstance(n.targets[0], ast.Name):
-                v = n.value
-                if self.is_parse_lit(v):
-                    self.consts[n.targets[0].id] = v.args[0].value
-                elif isinstance(v, ast.List) and v.elts and all(self.is_parse_lit(e) for e in v.elts):
-                    self.const_lists[n.targets[0].id] = [e.args[0].value for e in v.elts]
+            if isinstance(n, (ast.FunctionDef, ast.AsyncFunctionDef, ast.ClassDef)):
+                count[n.name] = count.get(n.name, 0) + 1
+                if isinstance(n, ast.FunctionDef):
+                    self.funcs[n.name] = n
+            elif isinstance(n, (ast.Assign, ast.AnnAssign, ast.AugAssign)):
+                tgs = n.targets if isinstance(n, ast.Assign) else [n.target]
+                for t in tgs:
+                    for x in ast.walk(t):
+                        if isinstance(x, ast.Name):
+                            count[x.id] = count.get(x.id, 0) + 1
+                if isinstance(n, ast.AugAssign) or getattr(n, 'value', None) is None or len(tgs) != 1 or not isinstance(tgs[0], ast.Name):
+                    continue
+                c = self.const_value(n.value)
+                if c is not None:
+                    self.consts[tgs[0].id] = c
+        # a name bound more than once at module level has no single meaning
+        self.consts = {k: v for k, v in self.consts.items() if count.get(k) == 1}
+        self.funcs = {k: v for k, v in self.funcs.items() if count.get(k) == 1}
+        self.module_checks(count)
 
+    def module_checks(self, count):
+        """the module is a flat list of imports, constants and functions; the names the translation gives a fixed meaning
+        come from where they should; nothing rebinds or mutates a module-level table behind the translator's back"""
+        imported = {}
+        for n in self.mod.body:
+            if isinstance(n, ast.ImportFrom):
+                for a in n.names:
+                    imported[a.asname or a.name] = (n.module, a.name, n.level)
+            elif isinstance(n, ast.Import):
+                for a in n.names:
+                    imported[(a.asname or a.name).split('.')[0]] = (None, a.name, 0)
+            elif not (isinstance(n, (ast.FunctionDef, ast.Assign, ast.AnnAssign)) or is_doc(n)):
+                raise Fail(f'module-level statement {type(n).__name__} (line {n.lineno})')
+        for nm, src in FIXED.items():
+            if count.get(nm) or (nm in imported and imported[nm] != src and src is not None) or (src is None and nm in imported):
+                raise Fail(f'the name {nm} is not the one the translation assumes')
+            if src is not None and nm not in imported and any(isinstance(x, ast.Name) and x.id == nm for x in ast.walk(self.mod)):
+                raise Fail(f'the name {nm} is used but not imported from {src[0]}')
+        for nm in imported:
+            if count.get(nm):
+                raise Fail(f'the imported name {nm} is rebound')
+        tables = {k for k, v in self.consts.items() if v[0] in ('cats', 'texts')} | {'combinators'}
+        for x in ast.walk(self.mod):
+            if isinstance(x, (ast.Global, ast.Nonlocal)):
+                raise Fail('global / nonlocal declaration')
+            if isinstance(x, (ast.Lambda, ast.ClassDef, ast.AsyncFunctionDef)) or (isinstance(x, ast.FunctionDef) and x not in self.mod.body):
+                if any(isinstance(y, ast.Name) and y.id in tables for y in ast.walk(x)):
+                    raise Fail('a module-level table is used inside a nested function, lambda or class')
+            if isinstance(x, ast.Attribute) and isinstance(x.value, ast.Name) and x.value.id in tables and x.attr not in ('index', 'count', '__len__', '__contains__', '__iter__'):
+                raise Fail(f'{x.value.id}.{x.attr}: a module-level table may only be read')
+            if isinstance(x, (ast.Subscript, ast.Starred)) and isinstance(x.value, ast.Name) and x.value.id in tables and not isinstance(x.ctx, ast.Load):
+                raise Fail(f'{x.value.id}[...] is assigned or deleted')
+            if isinstance(x, ast.AugAssign) and any(isinstance(y, ast.Name) and y.id in tables for y in ast.walk(x.target)):
+                raise Fail('a module-level table is updated in place')
+
+    # ---- module-level constants -----------------------------------------------------------------------
     @staticmethod
     def is_parse_lit(v):
         return (isinstance(v, ast.Call) and isinstance(v.func, ast.Attribute) and v.func.attr == 'parse'
-                and isinstance(v.func.value, ast.Name) and v.func.value.id == 'Category'
-                and len(v.args) == 1 and isinstance(v.args[0], ast.Constant) and isinstance(v.args[0].value, str))
+                and isinstance(v.func.value, ast.Name) and v.func.value.id == 'Category' and not v.keywords
+                and len(v.args) == 1 and cstr(v.args[0]) is not None)
 
+    def const_value(self, v):
+        if self.is_parse_lit(v):
+            return ('cat', v.args[0].value)
+        if isinstance(v, ast.Constant) and isinstance(v.value, bool):
+            return ('bool', v.value)
+        if cstr(v) is not None:
+            return ('text', v.value)
+        if isinstance(v, (ast.Tuple, ast.List)) and v.elts:
+            if all(self.is_parse_lit(e) for e in v.elts):
+                return ('cats', [e.args[0].value for e in v.elts])
+            if all(cstr(e) is not None for e in v.elts):
+                return ('texts', [e.value for e in v.elts])
+        return None
+
+    def pattern(self, s):
+        for v in re.findall(r'[^\[\]()/\\|<>\s]+', s):
+            if len(v) != 1 or not v.isalpha():
+                raise Fail(f'pattern variable {v!r} in {s!r} is not a single letter (the key scheme of the model needs that)')
+            self.pattern_vars.add(v)
+        return s
+
+    # ---- building blocks ------------------------------------------------------------------------------
+    def node(self, *t):
+        self.nodes += 1
+        if self.nodes > MAX_NODES:
+            raise Fail('the decision tree of a function is too large')
+        return t
+
+    def var(self, ty, op='var'):
+        self.fresh += 1
+        return E(op, (self.fresh,), ty)
+
+    def bind(self, prim, args, ty, k):
+        v = self.var(ty)
+        return self.node('bind', v, prim, list(args), k(v))
+
+    def want(self, a, ty, what):
+        if not isinstance(a, E) or a.ty != ty:
+            raise Fail(f'{what}: expected a {ty} value, found {a.ty if isinstance(a, E) else "matcher object"}')
+        return a
+
+    def mk_if(self, a, kt, kf):
+        """kt, kf are thunks; the canonical true branch is built first"""
+        self.want(a, BOOL, 'test')
+        if a.op == 'bool':
+            return kt() if a.args[0] else kf()
+        if a.op == 'app' and a.args[0] == 'negb':
+            return self.mk_if(a.args[1], kf, kt)
+        t = kt()
+        return self.node('if', a, t, kf())
+
+    def vals(self, nodes, env, k, acc=()):
+        if not nodes:
+            return k(list(acc))
+        return self.val(nodes[0], env, lambda a: self.vals(nodes[1:], env, k, acc + (a,)))
+
+    def private(self, f, env):
+        return isinstance(f, ast.Name) and f.id not in env and f.id in self.funcs and f.id.startswith('_')
+
+    # ---- expressions: val(n, env, k) evaluates n in Python's order and passes its atom to k ------------------
+    def val(self, n, env, k):
+        if isinstance(n, ast.Constant):
+            if isinstance(n.value, bool):
+                return k(Bool(n.value))
+            if isinstance(n.value, str):
+                return k(Text(n.value))
+            if n.value is None:
+                return k(E('none', (), NONE))
+            raise Fail(f'constant {n.value!r}')
+        if isinstance(n, ast.Name):
+            if n.id in env:
+                v = env[n.id]
+                if not isinstance(v, E):
+                    raise Fail(f'the matcher object {n.id} is used as a value')
+                return k(v)
+            c = self.consts.get(n.id)
+            if c is not None and c[0] == 'cat':
+                return k(E('catlit', (c[1],), CAT))
+            if c is not None and c[0] == 'text':
+                return k(Text(c[1]))
+            if c is not None and c[0] == 'bool':
+                return k(Bool(c[1]))
+            raise Fail(f'name {n.id}')
+        if isinstance(n, ast.Attribute):
+            a = n.attr
+
+            def got(o):
+                if a in ATTR_PRIMS:
+                    prim, ty = ATTR_PRIMS[a]
+                    return self.bind(prim, [self.want(o, CAT, '.' + a)], ty, k)
+                if a == 'is_functor':
+                    return k(App('is_fun', [self.want(o, CAT, '.' + a)], BOOL))
+                if a == 'is_atomic':
+                    return k(neg(App('is_fun', [self.want(o, CAT, '.' + a)], BOOL)))
+                if a in METHODS:
+                    if o.ty not in (CAT, FEAT):
+                        raise Fail(f'.{a} of a {o.ty} value')
+                    return k(E('method', (o, a), METH))
+                raise Fail(f'attribute {a}')
+            return self.val(n.value, env, got)
+        if isinstance(n, ast.Subscript):
+            if isinstance(n.value, ast.Name) and isinstance(env.get(n.value.id), Matcher) and cstr(n.slice) is not None:
+                m = env[n.value.id]
+                if m.state != 'ok':
+                    raise Fail(f'{n.value.id}[...] read outside a successful match')
+                return self.bind('uget', [m.u, Text(n.slice.value)], CAT, k)
+            raise Fail('subscript ' + ast.dump(n)[:120])
+        if isinstance(n, ast.BinOp) and isinstance(n.op, (ast.Div, ast.BitOr)):
+            sl = '/' if isinstance(n.op, ast.Div) else '\\'
+            return self.vals([n.left, n.right], env, lambda ab: k(App('Fun', [self.want(ab[0], CAT, sl), Text(sl), self.want(ab[1], CAT, sl)], CAT)))
+        if isinstance(n, ast.BinOp) and isinstance(n.op, ast.BitXor):
+            def xor(ab):
+                a, b = ab
+                self.want(a, CAT, '^')
+                if b.ty == TEXT:
+                    return k(Bool(False))          # category ^ str is False in Python
+                return k(App('cat_xor', [a, self.want(b, CAT, '^')], BOOL))
+            return self.vals([n.left, n.right], env, xor)
+        if isinstance(n, ast.UnaryOp) and isinstance(n.op, ast.Not):
+            return self.val(n.operand, env, lambda a: k(neg(self.want(a, BOOL, 'not'))))
+        if isinstance(n, ast.BoolOp):
+            return self.cond(n, env, lambda e: k(Bool(True)), lambda e: k(Bool(False)))
+        if isinstance(n, ast.IfExp):
+            return self.cond(n.test, env, lambda e: self.val(n.body, e, k), lambda e: self.val(n.orelse, e, k))
+        if isinstance(n, ast.Compare):
+            return self.compare(n, env, k)
+        if isinstance(n, ast.Call):
+            return self.call(n, env, k)
+        raise Fail('expression ' + ast.dump(n)[:160])
+
+    def compare(self, n, env, k):
+        if len(n.ops) != 1:
+            raise Fail('chained comparison')
+        op, l, r = n.ops[0], n.left, n.comparators[0]
+        if isinstance(op, (ast.Eq, ast.NotEq)):
+            def eq(ab):
+                a, b = ab
+                if a.ty == METH and b.ty == TEXT:
+                    res = Bool(False)               # a bound method compared with a string (the method is never called)
+                elif a.ty == CAT and b.ty == TEXT:
+                    res = App('eq_str', [a, b], BOOL)
+                elif a.ty == TEXT and b.ty == CAT:
+                    res = App('eq_str', [b, a], BOOL)     # str.__eq__ declines, Category.__eq__ answers
+                elif a.ty == CAT and b.ty == CAT:
+                    res = App('cat_eqb', [a, b], BOOL)
+                elif a.ty == TEXT and b.ty == TEXT:
+                    res = App('text_eqb', [a, b], BOOL)
+                else:
+                    raise Fail(f'comparison of a {a.ty} with a {b.ty}')
+                return k(neg(res) if isinstance(op, ast.NotEq) else res)
+            return self.vals([l, r], env, eq)
+        if isinstance(op, (ast.In, ast.NotIn)):
+            return self.member(l, r, env, (lambda a: k(neg(a))) if isinstance(op, ast.NotIn) else k)
+        raise Fail('comparison ' + ast.dump(op))
+
+    def member(self, l, r, env, k):
+        coll = None
+        if isinstance(r, (ast.Tuple, ast.List)) and r.elts and all(cstr(x) is not None for x in r.elts):
+            coll = ('texts', [x.value for x in r.elts])
+        elif isinstance(r, ast.Name) and r.id not in env:
+            if r.id in self.consts and self.consts[r.id][0] in ('texts', 'cats'):
+                coll = self.consts[r.id]
+            elif r.id == 'ascii_letters' and r.id not in self.consts:
+                coll = ('ascii',)
+        elif isinstance(r, ast.Name) and isinstance(env[r.id], E) and env[r.id].ty == ITEMS:
+            coll = ('items', env[r.id])
+        if coll is None:
+            raise Fail('membership test in ' + ast.dump(r)[:120])
+        if coll[0] == 'texts':
+            ls = E('textlist', (tuple(coll[1]),), 'list text')
+
+            def t(a):
+                if a.ty == TEXT:
+                    return k(App('text_in', [a, ls], BOOL))
+                # category in ("..", ..): element == category compares the texts
+                return k(App('text_in', [App('show', [self.want(a, CAT, 'in')], TEXT), ls], BOOL))
+            return self.val(l, env, t)
+        if coll[0] == 'cats':
+            ls = E('catlist', (tuple(coll[1]),), 'list cat')
+            return self.val(l, env, lambda a: k(App('cat_in', [self.want(a, CAT, 'in'), ls], BOOL)))
+        if coll[0] == 'ascii':
+            if not (isinstance(l, ast.Subscript) and isinstance(l.slice, ast.Constant) and l.slice.value == 0 and type(l.slice.value) is int):
+                raise Fail('only t[0] in ascii_letters is supported')
+            return self.val(l.value, env, lambda a: self.bind('first_is_ascii_letter', [self.want(a, TEXT, '[0]')], BOOL, k))
+        if not (isinstance(l, ast.Tuple) and len(l.elts) == 2 and all(cstr(x) is not None for x in l.elts)):
+            raise Fail('only a literal (key, value) pair can be looked up in feature items')
+        return k(App('pair_in', [Text(l.elts[0].value), Text(l.elts[1].value), coll[1]], BOOL))
+
+    def cres(self, n, env, k):
+        if n.args or any(kw.arg is None for kw in n.keywords):
+            raise Fail('CombinatorResult(...) must use the four keywords')
+        names = [kw.arg for kw in n.keywords]
+        if sorted(names) != ['cat', 'head_is_left', 'op_string', 'op_symbol']:
+            raise Fail('CombinatorResult(...) must use the four keywords')
+
+        def built(vs):
+            d = dict(zip(names, vs))
+            self.want(d['cat'], CAT, 'cat='), self.want(d['op_string'], TEXT, 'op_string='), self.want(d['op_symbol'], TEXT, 'op_symbol=')
+            if d['head_is_left'].op != 'bool':
+                raise Fail('head_is_left must be a constant')
+            return k(E('cres', (d['cat'], d['op_string'], d['op_symbol'], d['head_is_left'].args[0]), CRES))
+        return self.vals([kw.value for kw in n.keywords], env, built)
+
+    def call(self, n, env, k):
+        f = n.func
+        if self.private(f, env):
+            return self.inline(f.id, n, env, lambda fenv: Ctx(ret=lambda v, e: self.ret_val(v, e, k), fall=self.no_fall(f.id)))
+        if self.is_parse_lit(n) and 'Category' not in env:
+            return k(E('catlit', (n.args[0].value,), CAT))
+        if isinstance(f, ast.Name) and f.id not in env and f.id not in self.funcs and f.id not in self.consts:
+            if n.keywords and f.id != 'CombinatorResult':
+                raise Fail(f'keyword arguments of {f.id}()')
+            if f.id == 'CombinatorResult':
+                return self.cres(n, env, k)
+            if f.id == 'str' and len(n.args) == 1:
+                return self.val(n.args[0], env, lambda a: k(a if a.ty == TEXT else App('show', [self.want(a, CAT, 'str()')], TEXT)))
+            if f.id == 'set' and len(n.args) == 1:
+                a = n.args[0]
+                if isinstance(a, ast.Call) and isinstance(a.func, ast.Attribute) and a.func.attr == 'items' and not a.args and not a.keywords:
+                    return self.val(a.func.value, env, lambda o: self.bind('feature_items', [self.want(o, FEAT, '.items()')], ITEMS, k))
+            raise Fail('call ' + ast.dump(n)[:160])
+        if n.keywords:
+            raise Fail('keyword arguments in a method call')
+        if isinstance(f, ast.Attribute) and f.attr == 'clear_features' and all(cstr(a) is not None for a in n.args):
+            names = E('textlist', (tuple(a.value for a in n.args),), 'list text')
+            return self.val(f.value, env, lambda o: k(App('clear_features', [names, self.want(o, CAT, '.clear_features')], CAT)))
+        if isinstance(f, ast.Attribute) and f.attr == 'arg' and len(n.args) == 1 and isinstance(n.args[0], ast.Constant) and type(n.args[0].value) is int and n.args[0].value >= 0:
+            return self.val(f.value, env, lambda o: self.bind('arg_of', [self.want(o, CAT, '.arg'), E('nat', (n.args[0].value,), 'nat')], CAT, k))
+
+        # a bound method (x.functor, or a local holding one) applied to two categories
+        def applied(m):
+            if not (isinstance(m, E) and m.ty == METH and m.args[1] == 'functor' and m.args[0].ty == CAT and len(n.args) == 2):
+                raise Fail('call ' + ast.dump(n)[:160])
+            return self.vals(n.args, env, lambda ab: self.bind('functor_of', [m.args[0], self.want(ab[0], CAT, 'functor()'), self.want(ab[1], CAT, 'functor()')], CAT, k))
+        return self.val(f, env, applied)
+
+    # ---- inlining of private helpers ----------------------------------------------------------------------
+    def no_fall(self, fname):
+        def fall(env):
+            raise Fail(f'a path of {fname} falls off the end where a value is needed')
+        return fall
+
+    def ret_val(self, v, env, k):
+        if v is None:
+            return k(E('none', (), NONE))
+        return self.val(v, env, k)
+
+    def inline(self, fname, call, env, mkctx):
+        stack = env.get('__stack', ())
+        if fname in stack:
+            raise Fail(f'recursive helper {fname}')
+        fn = self.funcs[fname]
+        a = fn.args
+        if a.vararg or a.kwarg or a.kwonlyargs or a.posonlyargs or fn.decorator_list:
+            raise Fail(f'{fname}: unsupported signature')
+        params = [p.arg for p in a.args]
+        if any(isinstance(x, ast.Starred) for x in call.args) or any(kw.arg is None for kw in call.keywords):
+            raise Fail(f'{fname}(*..)')
+        names = params[:len(call.args)] + [kw.arg for kw in call.keywords]
+        if len(call.args) > len(params) or sorted(names) != sorted(params):
+            raise Fail(f'{fname}: the call does not name every parameter exactly once (defaults are not supported)')
+
+        def body(vs):
+            fenv = dict(zip(names, vs))
+            fenv['__stack'] = stack + (fname,)
+            return self.stmts(fn.body, fenv, mkctx(fenv))
+        return self.vals(list(call.args) + [kw.value for kw in call.keywords], env, body)
+
+    # ---- tests: cond(t, env, kt, kf); kt / kf receive the environment (a successful match binds its object) ------------
+    def cond(self, t, env, kt, kf):
+        if isinstance(t, ast.UnaryOp) and isinstance(t.op, ast.Not):
+            return self.cond(t.operand, env, kf, kt)
+        if isinstance(t, ast.BoolOp):
+            def chain(i, e):
+                if i == len(t.values) - 1:
+                    return self.cond(t.values[i], e, kt, kf)
+                if isinstance(t.op, ast.And):
+                    return self.cond(t.values[i], e, lambda e2: chain(i + 1, e2), kf)
+                return self.cond(t.values[i], e, kt, lambda e2: chain(i + 1, e2))
+            return chain(0, env)
+        if isinstance(t, ast.IfExp):
+            return self.cond(t.test, env, lambda e: self.cond(t.body, e, kt, kf), lambda e: self.cond(t.orelse, e, kt, kf))
+        if isinstance(t, ast.Call) and isinstance(t.func, ast.Name) and isinstance(env.get(t.func.id), Matcher):
+            m, nm = env[t.func.id], t.func.id
+            if m.state != 'fresh':
+                raise Fail(f'{nm}(...) is called a second time (a matcher answers only once)')
+            if len(t.args) != 2 or t.keywords:
+                raise Fail(f'{nm}(...) needs two arguments')
+
+            def match(ab):
+                u = self.var('ustate', 'uvar')
+                e_ok, e_no = dict(env), dict(env)
+                e_ok[nm] = Matcher(m.px, m.py, 'ok', u)
+                e_no[nm] = Matcher(m.px, m.py, 'spent')
+                s = kt(e_ok)
+                return self.node('unify', m.px, m.py, self.want(ab[0], CAT, nm), self.want(ab[1], CAT, nm), u, s, kf(e_no))
+            return self.vals(t.args, env, match)
+        if isinstance(t, ast.Call) and self.private(t.func, env):
+            return self.inline(t.func.id, t, env, lambda fenv: Ctx(
+                ret=lambda v, e: self.cond_ret(v, e, lambda _: kt(env), lambda _: kf(env), t.func.id), fall=self.no_fall(t.func.id)))
+        return self.val(t, env, lambda a: self.mk_if(a, lambda: kt(env), lambda: kf(env)))
+
+    def cond_ret(self, v, env, kt, kf, fname):
+        if v is None or is_none(v):
+            raise Fail(f'{fname} returns None where a truth value is needed')
+        return self.cond(v, env, kt, kf)
+
+    # ---- statements -----------------------------------------------------------------------------------
+    def stmts(self, ss, env, ctx):
+        ss = list(ss)
+        while ss and is_doc(ss[0]):
+            ss.pop(0)
+        if not ss:
+            return ctx.fall(env)
+        st, rest = ss[0], ss[1:]
+        if isinstance(st, ast.Return):
+            return ctx.ret(st.value, env)         # statements after a return are dead
+        if isinstance(st, (ast.Assign, ast.AnnAssign)) and getattr(st, 'value', None) is not None:
+            tgs = st.targets if isinstance(st, ast.Assign) else [st.target]
+            if len(tgs) != 1 or not isinstance(tgs[0], ast.Name):
+                raise Fail('assignment target ' + ast.dump(tgs[0])[:80])
+            tgt, v = tgs[0].id, st.value
+            if tgt.startswith('__'):
+                raise Fail(f'local name {tgt}')
+            if isinstance(v, ast.Call) and isinstance(v.func, ast.Name) and v.func.id == 'Unification' and 'Unification' not in env:
+                if not (len(v.args) == 2 and not v.keywords and all(cstr(a) is not None for a in v.args)):
+                    raise Fail('Unification(...) with non-literal patterns')
+                env2 = dict(env)
+                env2[tgt] = Matcher(self.pattern(v.args[0].value), self.pattern(v.args[1].value))
+                return self.stmts(rest, env2, ctx)
+
+            def bound(a):
+                env2 = dict(env)
+                env2[tgt] = a
+                return self.stmts(rest, env2, ctx)
+            return self.val(v, env, bound)
+        if isinstance(st, ast.If):
+            return self.cond(st.test, env, lambda e: self.stmts(st.body + rest, e, ctx), lambda e: self.stmts(st.orelse + rest, e, ctx))
+        if (ctx.append is not None and isinstance(st, ast.Expr) and isinstance(st.value, ast.Call) and isinstance(st.value.func, ast.Attribute)
+                and st.value.func.attr == 'append' and isinstance(st.value.func.value, ast.Name) and len(st.value.args) == 1 and not st.value.keywords):
+            return ctx.append(st.value.func.value.id, st.value.args[0], env, [s for s in rest if not is_doc(s)])
+        raise Fail('statement ' + ast.dump(st)[:160])
+
+    # ---- leaves ---------------------------------------------------------------------------------------
+    def leaf(self, a, kind):
+        if a.ty == CRES:
+            return self.node('some' if kind == 'comb' else 'res', *a.args)
+        if a.ty == NONE and kind == 'comb':
+            return self.node('none')
+        raise Fail(f'a {kind} yields a {a.ty} value')
+
+    def combinator(self, c):
+        fn = self.funcs.get(c)
+        if fn is None or [a.arg for a in fn.args.args] != ['x', 'y'] or fn.args.vararg or fn.args.kwarg or fn.args.kwonlyargs or fn.args.defaults or fn.decorator_list:
+            raise Fail(f'combinator {c}(x, y) not found')
+        env = {'x': E('param', ('x',), CAT), 'y': E('param', ('y',), CAT), '__stack': (c,)}
+        ctx = Ctx(ret=lambda v, e: self.ret_val(v, e, lambda a: self.leaf(a, 'comb')), fall=lambda e: self.node('none'))
+        self.nodes = 0
+        return self.stmts(fn.body, env, ctx)
+
+    # ---- path-sensitive simplification ----------------------------------------------------------------------
+    def akey(self, a, sub):
+        if a.op in ('var', 'uvar'):
+            r = sub.get(a.args[0])
+            return self.akey(r, sub) if r is not None else (a.op, a.args[0])
+        return (a.op,) + tuple(self.akey(x, sub) if isinstance(x, E) else x for x in a.args)
+
+    def asub(self, a, sub):
+        if a.op in ('var', 'uvar'):
+            r = sub.get(a.args[0])
+            return self.asub(r, sub) if r is not None else a
+        if any(isinstance(x, E) for x in a.args):
+            return E(a.op, [self.asub(x, sub) if isinstance(x, E) else x for x in a.args], a.ty)
+        return a
+
+    def simp(self, c, known, facts, sub):
+        """along one path every atom has one value and a primitive that succeeded once succeeds again with the same value:
+        a repeated test is decided, a repeated primitive step reuses the variable bound first"""
+        t = c[0]
+        if t == 'none':
+            return c
+        if t in ('some', 'res'):
+            return (t, self.asub(c[1], sub), self.asub(c[2], sub), self.asub(c[3], sub), c[4])
+        if t == 'bind':
+            args = [self.asub(x, sub) for x in c[3]]
+            key = (c[2],) + tuple(self.akey(x, {}) for x in args)
+            if key in known:
+                return self.simp(c[4], known, facts, {**sub, c[1].args[0]: known[key]})
+            return ('bind', c[1], c[2], args, self.simp(c[4], {**known, key: c[1]}, facts, sub))
+        if t == 'if':
+            a = self.asub(c[1], sub)
+            key = self.akey(a, {})
+            if key in facts:
+                return self.simp(c[2] if facts[key] else c[3], known, facts, sub)
+            return ('if', a, self.simp(c[2], known, {**facts, key: True}, sub), self.simp(c[3], known, {**facts, key: False}, sub))
+        if t == 'unify':
+            return ('unify', c[1], c[2], self.asub(c[3], sub), self.asub(c[4], sub), c[5],
+                    self.simp(c[6], known, facts, sub), self.simp(c[7], known, facts, sub))
+        raise Fail('internal: tree node ' + str(t))
+
+    # ---- printing: names by depth, literals by first occurrence -------------------------------------------------
     def catlit(self, s):
         if s not in self.lits:
             self.lits[s] = f'lit_{len(self.lits)}'
         return self.lits[s]
 
-    def pattern(self, s):
-        import re
-        for v in re.findall(r'[^\[\]()/\\|<>\s]+', s):
-            if len(v) != 1 or not v.isalpha():
-                raise Fail(f'pattern variable {v!r} in {s!r} is not a single letter (the key scheme of the model needs that)')
-            self.pattern_vars.add(v)
-        return self.catlit(s)
+    def pa(self, a, names):
+        o = a.op
+        if o == 'bool':
+            return 'true' if a.args[0] else 'false'
+        if o == 'text':
+            return lit(a.args[0])
+        if o == 'textlist':
+            return lits(list(a.args[0]))
+        if o == 'catlist':
+            return '[' + ';'.join(self.catlit(s) for s in a.args[0]) + ']'
+        if o == 'catlit':
+            return self.catlit(a.args[0])
+        if o == 'nat':
+            return f'{a.args[0]}%nat'
+        if o == 'param':
+            return a.args[0]
+        if o in ('var', 'uvar'):
+            return names[a.args[0]]
+        if o == 'app':
+            return '(' + a.args[0] + ' ' + ' '.join(self.pa(x, names) for x in a.args[1:]) + ')'
+        raise Fail(f'a {a.ty} value reaches the generated code')
 
-    # ---- expressions: a Gallina term of type  res T -------------------------------------------------
-    def e(self, n, env):
-        if isinstance(n, ast.Constant):
-            if isinstance(n.value, bool):
-                return f'(Ok_ {str(n.value).lower()})'
-            if isinstance(n.value, str):
-                return f'(Ok_ {lit(n.value)})'
-            raise Fail(f'constant {n.value!r}')
-        if isinstance(n, ast.Name):
-            if n.id in env:
-                return f'(Ok_ {env[n.id]})'
-            if n.id in self.consts:
-                return f'(Ok_ {self.catlit(self.consts[n.id])})'
-            raise Fail(f'name {n.id}')
-        if isinstance(n, ast.Attribute):
-            a = n.attr
-            if a in METHODS:
-                raise Fail(f'method {a} referenced without a call outside a comparison')
-            v = self.e(n.value, env)
-            m = {'is_functor': 'fun c => Ok_ (is_fun c)', 'is_atomic': 'fun c => Ok_ (negb (is_fun c))',
-                 'left': 'left_of', 'right': 'right_of', 'base': 'base_of', 'feature': 'feature_of'}
-            if a in m:
-                return f'(bind {v} ({m[a]}))'
-            raise Fail(f'attribute {a}')
-        if isinstance(n, ast.Subscript) and isinstance(n.value, ast.Name) and n.value.id == 'uni' and isinstance(n.slice, ast.Constant) and isinstance(n.slice.value, str):
-            if 'uni' not in env:
-                raise Fail('uni[...] read outside a successful match')
-            return f'(uget {env["uni"]} {lit(n.slice.value)})'
-        if isinstance(n, ast.BinOp) and isinstance(n.op, (ast.Div, ast.BitOr)):
-            sl = '/' if isinstance(n.op, ast.Div) else '\\'
-            return f'(do a_ <- {self.e(n.left, env)}; do b_ <- {self.e(n.right, env)}; Ok_ (Fun a_ {lit(sl)} b_))'
-        if isinstance(n, ast.BinOp) and isinstance(n.op, ast.BitXor):
-            if isinstance(n.right, ast.Constant) and isinstance(n.right.value, str):
-                return f'(do _a <- {self.e(n.left, env)}; Ok_ false)'     # category ^ str is False in Python
-            return f'(do a_ <- {self.e(n.left, env)}; do b_ <- {self.e(n.right, env)}; Ok_ (cat_xor a_ b_))'
-        if isinstance(n, ast.UnaryOp) and isinstance(n.op, ast.Not):
-            return f'(do a_ <- {self.e(n.operand, env)}; Ok_ (negb a_))'
-        if isinstance(n, ast.BoolOp):
-            acc = self.e(n.values[-1], env)
-            for v in reversed(n.values[:-1]):
-                if isinstance(n.op, ast.And):
-                    acc = f'(do a_ <- {self.e(v, env)}; if a_ then {acc} else Ok_ false)'
-                else:
-                    acc = f'(do a_ <- {self.e(v, env)}; if a_ then Ok_ true else {acc})'
-            return acc
-        if isinstance(n, ast.IfExp):
-            return f'(do c_ <- {self.e(n.test, env)}; if c_ then {self.e(n.body, env)} else {self.e(n.orelse, env)})'
-        if isinstance(n, ast.Compare) and len(n.ops) == 1:
-            return self.compare(n.left, n.ops[0], n.comparators[0], env)
-        if isinstance(n, ast.Call):
-            return self.call(n, env)
-        raise Fail('expression ' + ast.dump(n)[:160])
+    def pc(self, c, d, names, ind):
+        """c: tree, d: number of enclosing binders, ind: indentation"""
+        t = c[0]
+        sp = '  ' * ind
+        if t == 'none':
+            return sp + 'Ok_ None'
+        if t in ('some', 'res'):
+            rec = (f'{{| rcat := {self.pa(c[1], names)}; op_string := {self.pa(c[2], names)}; op_symbol := {self.pa(c[3], names)}; '
+                   f'head_is_left := {"true" if c[4] else "false"} |}}')
+            return sp + (f'Ok_ (Some {rec})' if t == 'some' else f'Ok_ {rec}')
+        if t == 'bind':
+            nm = f'v{d}_'
+            head = f'{sp}do {nm} <- {c[2]} ' + ' '.join(self.pa(x, names) for x in c[3]) + ';\n'
+            return head + self.pc(c[4], d + 1, {**names, c[1].args[0]: nm}, ind)
+        if t == 'if':
+            return (f'{sp}if {self.pa(c[1], names)} then (\n{self.pc(c[2], d, names, ind + 1)})\n{sp}else (\n{self.pc(c[3], d, names, ind + 1)})')
+        if t == 'unify':
+            nm = f'u{d}_'
+            px, py = self.catlit(c[1]), self.catlit(c[2])
+            head = f'{sp}do m_ <- unify {px} {py} {self.pa(c[3], names)} {self.pa(c[4], names)};\n{sp}match m_ with\n'
+            some = f'{sp}| Some {nm} => (\n{self.pc(c[6], d + 1, {**names, c[5].args[0]: nm}, ind + 1)})\n'
+            none = f'{sp}| None => (\n{self.pc(c[7], d, names, ind + 1)})\n{sp}end'
+            return head + some + none
+        raise Fail('internal: tree node ' + str(t))
 
-    def compare(self, l, op, r, env):
-        if isinstance(op, ast.Eq):
-            if isinstance(l, ast.Attribute) and l.attr in METHODS and isinstance(r, ast.Constant):
-                # a bound method compared with a string: always False (the method is never called)
-                return f'(do _a <- {self.e(l.value, env)}; Ok_ false)'
-            if isinstance(r, ast.Constant) and isinstance(r.value, str):
-                return f'(do a_ <- {self.e(l, env)}; Ok_ (eq_str a_ {lit(r.value)}))'
-            return f'(do a_ <- {self.e(l, env)}; do b_ <- {self.e(r, env)}; Ok_ (cat_eqb a_ b_))'
-        if isinstance(op, (ast.In, ast.NotIn)):
-            neg = isinstance(op, ast.NotIn)
-            t = self.member(l, r, env)
-            return f'(do a_ <- {t}; Ok_ (negb a_))' if neg else t
-        raise Fail('comparison ' + ast.dump(op))
+    # ---- the list-building wrappers, executed symbolically ---------------------------------------------------
+    def wrapper(self, fn, atom, value, loop):
+        """decision tree of a wrapper: ('if', atom, T, F) | ('ret', list value); see the classes below for the hooks"""
+        def cond(t, env, kt, kf):
+            if isinstance(t, ast.UnaryOp) and isinstance(t.op, ast.Not):
+                return cond(t.operand, env, kf, kt)
+            if isinstance(t, ast.BoolOp):
+                def chain(i):
+                    if i == len(t.values) - 1:
+                        return cond(t.values[i], env, kt, kf)
+                    if isinstance(t.op, ast.And):
+                        return cond(t.values[i], env, lambda: chain(i + 1), kf)
+                    return cond(t.values[i], env, kt, lambda: chain(i + 1))
+                return chain(0)
+            key, positive = atom(t, env)
+            if not positive:
+                kt, kf = kf, kt
+            a = kt()
+            return ('if', key, a, kf())
 
-    def member(self, l, r, env):
-        if isinstance(r, ast.Tuple) and r.elts and all(isinstance(x, ast.Constant) and isinstance(x.value, str) for x in r.elts):
-            ls = lits([x.value for x in r.elts])
-            if isinstance(l, ast.Call) and isinstance(l.func, ast.Name) and l.func.id == 'str' and len(l.args) == 1:
-                return f'(do a_ <- {self.e(l.args[0], env)}; Ok_ (text_in (show a_) {ls}))'
-            if isinstance(l, ast.Attribute) and l.attr == 'base':
-                return f'(do a_ <- {self.e(l, env)}; Ok_ (text_in a_ {ls}))'
-            return f'(do a_ <- {self.e(l, env)}; Ok_ (text_in (show a_) {ls}))'     # cat == str  <=>  str(cat) == str
-        if isinstance(r, ast.Name) and r.id == 'ascii_letters' and isinstance(l, ast.Subscript) and isinstance(l.slice, ast.Constant) and l.slice.value == 0:
-            return f'(do a_ <- {self.e(l.value, env)}; first_is_ascii_letter a_)'
-        if isinstance(r, ast.Name) and r.id in self.const_lists:
-            ls = '[' + ';'.join(self.catlit(s) for s in self.const_lists[r.id]) + ']'
-            return f'(do a_ <- {self.e(l, env)}; Ok_ (cat_in a_ {ls}))'
-        if isinstance(r, ast.Name) and env.get(r.id, '').startswith('items_') and isinstance(l, ast.Tuple) and len(l.elts) == 2 \
-                and all(isinstance(x, ast.Constant) and isinstance(x.value, str) for x in l.elts):
-            return f'(Ok_ (pair_in {lit(l.elts[0].value)} {lit(l.elts[1].value)} {env[r.id]}))'
-        raise Fail('membership test ' + ast.dump(r)[:120])
+        def stmts(ss, env):
+            ss = [s for s in ss]
+            while ss and is_doc(ss[0]):
+                ss.pop(0)
+            if not ss:
+                raise Fail(f'{fn.name}: a path falls off the end')
+            st, rest = ss[0], ss[1:]
+            if isinstance(st, ast.Return):
+                if st.value is None:
+                    raise Fail(f'{fn.name}: bare return')
+                v = value(st.value, env)
+                if v[0] != 'list':
+                    raise Fail(f'{fn.name}: returns something that is not one of the recognised lists')
+                return ('ret', v)
+            if isinstance(st, (ast.Assign, ast.AnnAssign)) and getattr(st, 'value', None) is not None:
+                tgs = st.targets if isinstance(st, ast.Assign) else [st.target]
+                if len(tgs) != 1 or not isinstance(tgs[0], ast.Name) or tgs[0].id in [a.arg for a in fn.args.args]:
+                    raise Fail(f'{fn.name}: unsupported assignment')
+                env = dict(env)
+                v = value(st.value, env)
+                if isinstance(st.value, ast.Name) and v[0] != 'key':
+                    raise Fail(f'{fn.name}: a second name for a list or generator')
+                env[tgs[0].id] = v
+                return stmts(rest, env)
+            if isinstance(st, ast.If):
+                return cond(st.test, env, lambda: stmts(st.body + rest, dict(env)), lambda: stmts(st.orelse + rest, dict(env)))
+            if isinstance(st, ast.For) and not st.orelse:
+                env = dict(env)
+                loop(st, env)
+                return stmts(rest, env)
+            raise Fail(f'{fn.name}: unsupported statement ' + ast.dump(st)[:120])
+        return stmts(fn.body, {})
 
-    def call(self, n, env):
-        f = n.func
-        if isinstance(f, ast.Name) and f.id in self.funcs and f.id.startswith('_'):
-            self.need_helper(f.id)
-            args = [self.e(a, env) for a in n.args]
-            names = [f'h{i}_' for i in range(len(args))]
-            body = f'{f.id[1:]} ' + ' '.join(names)
-            for nm, a in reversed(list(zip(names, args))):
-                body = f'do {nm} <- {a}; {body}'
-            return f'({body})'
-        if self.is_parse_lit(n):
-            return f'(Ok_ {self.catlit(n.args[0].value)})'
-        if isinstance(f, ast.Attribute) and f.attr == 'functor' and len(n.args) == 2:
-            return f'(do c_ <- {self.e(f.value, env)}; do a_ <- {self.e(n.args[0], env)}; do b_ <- {self.e(n.args[1], env)}; functor_of c_ a_ b_)'
-        if isinstance(f, ast.Attribute) and f.attr == 'clear_features' and all(isinstance(a, ast.Constant) and isinstance(a.value, str) for a in n.args):
-            return f'(do a_ <- {self.e(f.value, env)}; Ok_ (clear_features {lits([a.value for a in n.args])} a_))'
-        if isinstance(f, ast.Attribute) and f.attr == 'arg' and len(n.args) == 1 and isinstance(n.args[0], ast.Constant) and isinstance(n.args[0].value, int):
-            return f'(do a_ <- {self.e(f.value, env)}; arg_of a_ {n.args[0].value}%nat)'
-        if isinstance(f, ast.Name) and f.id == 'str' and len(n.args) == 1:
-            return f'(do a_ <- {self.e(n.args[0], env)}; Ok_ (show a_))'
-        if isinstance(f, ast.Name) and f.id == 'set' and len(n.args) == 1:
-            a = n.args[0]
-            if isinstance(a, ast.Call) and isinstance(a.func, ast.Attribute) and a.func.attr == 'items' and not a.args:
-                return f'(do a_ <- {self.e(a.func.value, env)}; feature_items a_)'
-        raise Fail('call ' + ast.dump(n)[:160])
+    @staticmethod
+    def not_none(t, name):
+        """`name is not None`"""
+        return (isinstance(t, ast.Compare) and len(t.ops) == 1 and isinstance(t.ops[0], ast.IsNot) and isinstance(t.left, ast.Name)
+                and t.left.id == name and is_none(t.comparators[0]))
 
-    def need_helper(self, name):
-        if name in self.helpers:
-            return
-        self.helpers[name] = None
-        fn = self.funcs[name]
-        env = {a.arg: a.arg for a in fn.args.args}
-        ret = 'text' if (isinstance(fn.returns, ast.Name) and fn.returns.id == 'str') else 'bool'
-        self.helpers[name] = (list(env), ret, self.s(fn.body, env, 'helper'))
+    def binary_wrapper(self):
+        """apply_binary_rules: which features are erased for the rule key and for the seen-rule key"""
+        fn = self.funcs.get('apply_binary_rules')
+        a = fn.args if fn is not None else None
+        if (fn is None or [p.arg for p in a.args] != ['x', 'y', 'seen_rules'] or a.vararg or a.kwarg or a.kwonlyargs or fn.decorator_list
+                or len(a.defaults) != 1 or not is_none(a.defaults[0])):
+            raise Fail('apply_binary_rules(x, y, seen_rules=None) not found')
+        W = 'apply_binary_rules'
 
-    # ---- statements, continuation-passing -----------------------------------------------------------
-    def s(self, stmts, env, kind):
-        if not stmts:
-            if kind == 'comb':
-                return 'Ok_ None'          # falls off the end: returns None
-            raise Fail(f'control falls off the end of a {kind}')
-        st, rest = stmts[0], stmts[1:]
-        if isinstance(st, ast.Expr) and isinstance(st.value, ast.Constant):
-            return self.s(rest, env, kind)   # docstring
-        if isinstance(st, ast.Return):
-            v = st.value
-            if v is None or (isinstance(v, ast.Constant) and v.value is None):
-                if kind != 'comb':
-                    raise Fail('return None in a helper')
-                return 'Ok_ None'
-            if isinstance(v, ast.Call) and isinstance(v.func, ast.Name) and v.func.id == 'CombinatorResult':
-                return f'(do r_ <- {self.cres(v, env)}; Ok_ (Some r_))'
-            if kind == 'helper':
-                return self.e(v, env)
-            raise Fail('return ' + ast.dump(v)[:100])
-        if isinstance(st, ast.Assign) and len(st.targets) == 1 and isinstance(st.targets[0], ast.Name):
-            tgt, v = st.targets[0].id, st.value
-            if isinstance(v, ast.Call) and isinstance(v.func, ast.Name) and v.func.id == 'Unification':
-                if not (len(v.args) == 2 and all(isinstance(a, ast.Constant) and isinstance(a.value, str) for a in v.args)):
-                    raise Fail('Unification(...) with non-literal patterns')
-                env2 = dict(env)
-                env2['__pat'] = (v.args[0].value, v.args[1].value)
-                env2.pop('uni', None)
-                return self.s(rest, env2, kind)
-            is_items = isinstance(v, ast.Call) and isinstance(v.func, ast.Name) and v.func.id == 'set'
-            nm = f'{"items_" if is_items else ""}{tgt}_{len(env)}'
-            env2 = dict(env)
-            env2[tgt] = nm
-            return f'(do {nm} <- {self.e(v, env)}; {self.s(rest, env2, kind)})'
-        if isinstance(st, ast.If):
-            t = st.test
-            if isinstance(t, ast.Call) and isinstance(t.func, ast.Name) and t.func.id == 'uni':
-                if '__pat' not in env or len(t.args) != 2:
-                    raise Fail('uni(...) without a preceding Unification(...)')
-                px, py = env['__pat']
-                a0, a1 = (self.e(a, env) for a in t.args)
-                env2 = dict(env)
-                env2['uni'] = 'u_'
-                env3 = dict(env)
-                env3.pop('__pat')   # a matcher answers only once
-                env2.pop('__pat')
-                return (f'(do x_ <- {a0}; do y_ <- {a1}; do m_ <- unify {self.pattern(px)} {self.pattern(py)} x_ y_; '
-                        f'match m_ with Some u_ => {self.s(st.body + rest, env2, kind)} | None => {self.s(st.orelse + rest, env3, kind)} end)')
-            return f'(do c_ <- {self.e(t, env)}; if c_ then {self.s(st.body + rest, env, kind)} else {self.s(st.orelse + rest, env, kind)})'
-        raise Fail('statement ' + ast.dump(st)[:160])
+        def component(node, var):
+            if isinstance(node, ast.Name) and node.id == var:
+                return ()
+            if (isinstance(node, ast.Call) and isinstance(node.func, ast.Attribute) and node.func.attr == 'clear_features' and not node.keywords
+                    and isinstance(node.func.value, ast.Name) and node.func.value.id == var and all(cstr(x) is not None for x in node.args)):
+                return tuple(x.value for x in node.args)
+            raise Fail(f'{W}: unsupported key component')
 
-    def cres(self, v, env):
-        kw = {k.arg: k.value for k in v.keywords}
-        if set(kw) != {'cat', 'op_string', 'op_symbol', 'head_is_left'} or v.args:
-            raise Fail('CombinatorResult(...) must use the four keywords')
-        if not (isinstance(kw['head_is_left'], ast.Constant) and isinstance(kw['head_is_left'].value, bool)):
-            raise Fail('head_is_left must be a literal')
-        return (f'(do c__ <- {self.e(kw["cat"], env)}; do s1__ <- {self.e(kw["op_string"], env)}; do s2__ <- {self.e(kw["op_symbol"], env)}; '
-                f'Ok_ {{| rcat := c__; op_string := s1__; op_symbol := s2__; head_is_left := {str(kw["head_is_left"].value).lower()} |}})')
+        def key_of_args(args, env):
+            """the pair a combinator is applied to: c(*K) or c(A, B)"""
+            if len(args) == 1 and isinstance(args[0], ast.Starred):
+                v = value(args[0].value, env)
+            elif len(args) == 2 and not any(isinstance(x, ast.Starred) for x in args):
+                v = ('key', component(args[0], 'x'), component(args[1], 'y'))
+            else:
+                raise Fail(f'{W}: a combinator is not applied to one pair')
+            if v[0] != 'key':
+                raise Fail(f'{W}: a combinator is not applied to a key pair')
+            return v
+
+        def comb_call(node, cname, env):
+            if not (isinstance(node, ast.Call) and isinstance(node.func, ast.Name) and node.func.id == cname and not node.keywords):
+                raise Fail(f'{W}: expected a call of the loop variable {cname}')
+            return key_of_args(node.args, env)
+
+        def over_combinators(g):
+            if not (isinstance(g.iter, ast.Name) and g.iter.id == 'combinators' and isinstance(g.target, ast.Name) and not g.is_async):
+                raise Fail(f'{W}: expected an iteration over `combinators`')
+            return g.target.id
+
+        def value(n, env):
+            if isinstance(n, ast.Name):
+                if n.id not in env or n.id == 'combinators':
+                    raise Fail(f'{W}: name {n.id}')
+                v = env[n.id]
+                if v[0] == 'spent':
+                    raise Fail(f'{W}: the generator {n.id} is consumed twice')
+                return v
+            if isinstance(n, ast.Tuple) and len(n.elts) == 2:
+                return ('key', component(n.elts[0], 'x'), component(n.elts[1], 'y'))
+            if (isinstance(n, ast.List) and not n.elts) or (isinstance(n, ast.Call) and isinstance(n.func, ast.Name) and n.func.id == 'list' and not n.args and not n.keywords):
+                return ('list', None)
+            if isinstance(n, (ast.ListComp, ast.GeneratorExp)):
+                gs = n.generators
+                lazy = isinstance(n, ast.GeneratorExp)
+                # every answer, None included:  c(*K) for c in combinators
+                if len(gs) == 1 and not gs[0].ifs and isinstance(gs[0].iter, ast.Name) and gs[0].iter.id == 'combinators':
+                    c = over_combinators(gs[0])
+                    e2 = dict(env)
+                    e2.pop(c, None)
+                    return ('gen' if lazy else 'all', comb_call(n.elt, c, e2))
+                if lazy or not isinstance(n.elt, ast.Name):
+                    raise Fail(f'{W}: unsupported comprehension')
+                r = n.elt.id
+                # r for c in combinators for r in (c(*K),) if r is not None
+                if len(gs) == 2 and not gs[0].ifs and len(gs[1].ifs) == 1 and self.not_none(gs[1].ifs[0], r):
+                    c = over_combinators(gs[0])
+                    g = gs[1]
+                    if (isinstance(g.target, ast.Name) and g.target.id == r and r != c and isinstance(g.iter, (ast.Tuple, ast.List)) and len(g.iter.elts) == 1):
+                        e2 = dict(env)
+                        e2.pop(c, None)
+                        return ('list', comb_call(g.iter.elts[0], c, e2))
+                # r for c in combinators if (r := c(*K)) is not None
+                if len(gs) == 1 and len(gs[0].ifs) == 1 and isinstance(gs[0].iter, ast.Name) and gs[0].iter.id == 'combinators':
+                    c = over_combinators(gs[0])
+                    t = gs[0].ifs[0]
+                    if (isinstance(t, ast.Compare) and len(t.ops) == 1 and isinstance(t.ops[0], ast.IsNot) and is_none(t.comparators[0])
+                            and isinstance(t.left, ast.NamedExpr) and t.left.target.id == r and r != c):
+                        e2 = dict(env)
+                        e2.pop(c, None)
+                        return ('list', comb_call(t.left.value, c, e2))
+                # r for r in <every answer> if r is not None
+                if len(gs) == 1 and len(gs[0].ifs) == 1 and self.not_none(gs[0].ifs[0], r) and isinstance(gs[0].target, ast.Name) and gs[0].target.id == r:
+                    src = value(gs[0].iter, env)
+                    if src[0] in ('gen', 'all'):
+                        if src[0] == 'gen' and isinstance(gs[0].iter, ast.Name):
+                            env[gs[0].iter.id] = ('spent',)
+                        return ('list', src[1])
+                raise Fail(f'{W}: unsupported comprehension')
+            raise Fail(f'{W}: unsupported expression ' + ast.dump(n)[:100])
+
+        def atom(t, env):
+            if isinstance(t, ast.Compare) and len(t.ops) == 1:
+                op, l, r = t.ops[0], t.left, t.comparators[0]
+                if isinstance(op, (ast.Is, ast.IsNot)) and isinstance(l, ast.Name) and l.id == 'seen_rules' and is_none(r):
+                    return 'none', isinstance(op, ast.Is)
+                if isinstance(op, (ast.In, ast.NotIn)) and isinstance(r, ast.Name) and r.id == 'seen_rules' and 'seen_rules' not in env:
+                    v = value(l, env)
+                    if v[0] == 'key':
+                        return ('in', v), isinstance(op, ast.In)
+            raise Fail(f'{W}: unsupported test ' + ast.dump(t)[:120])
+
+        def loop(st, env):
+            """for c in combinators: r = c(*K); if r is not None: L.append(r)"""
+            if not (isinstance(st.iter, ast.Name) and st.iter.id == 'combinators' and isinstance(st.target, ast.Name)):
+                raise Fail(f'{W}: unexpected loop')
+            c = st.target.id
+            body = [s for s in st.body if not is_doc(s)]
+            ok = len(body) in (2, 3) and isinstance(body[0], ast.Assign) and len(body[0].targets) == 1 and isinstance(body[0].targets[0], ast.Name)
+            if not ok:
+                raise Fail(f'{W}: unexpected combinator loop')
+            r = body[0].targets[0].id
+            e2 = dict(env)
+            e2.pop(c, None)
+            key = comb_call(body[0].value, c, e2)
+
+            def append_to(s):
+                if (isinstance(s, ast.Expr) and isinstance(s.value, ast.Call) and isinstance(s.value.func, ast.Attribute) and s.value.func.attr == 'append'
+                        and isinstance(s.value.func.value, ast.Name) and len(s.value.args) == 1 and not s.value.keywords
+                        and isinstance(s.value.args[0], ast.Name) and s.value.args[0].id == r):
+                    return s.value.func.value.id
+                raise Fail(f'{W}: unexpected combinator loop')
+            if len(body) == 2:
+                i = body[1]
+                if not (isinstance(i, ast.If) and self.not_none(i.test, r) and not i.orelse and len([s for s in i.body if not is_doc(s)]) == 1):
+                    raise Fail(f'{W}: unexpected combinator loop')
+                L = append_to([s for s in i.body if not is_doc(s)][0])
+            else:
+                i = body[1]
+                is_n = (isinstance(i, ast.If) and isinstance(i.test, ast.Compare) and len(i.test.ops) == 1 and isinstance(i.test.ops[0], ast.Is)
+                        and isinstance(i.test.left, ast.Name) and i.test.left.id == r and is_none(i.test.comparators[0])
+                        and not i.orelse and len(i.body) == 1 and isinstance(i.body[0], ast.Continue))
+                if not is_n:
+                    raise Fail(f'{W}: unexpected combinator loop')
+                L = append_to(body[2])
+            if len({c, r, L}) != 3 or env.get(L) != ('list', None) or r in env or c in env:
+                raise Fail(f'{W}: the loop does not fill a fresh empty list')
+            env[L] = ('list', key)
+
+        tree = self.wrapper(fn, atom, value, loop)
+        K = SK = None
+        if tree[0] == 'if' and tree[1] == 'none' and tree[2][0] == 'ret' and tree[3][0] == 'if' and tree[3][1][0] == 'in':
+            K, SK = tree[2][1][1], tree[3][1][1]
+            if tree != ('if', 'none', ('ret', ('list', K)), ('if', ('in', SK), ('ret', ('list', K)), ('ret', ('list', None)))):
+                K = None
+        if K is None or SK is None:
+            raise Fail(f'{W}: the function is not `all combinators on the key if seen_rules is None or the seen-key is in it, else []`')
+        if K[1] != K[2] or SK[1] != SK[2]:
+            raise Fail(f'{W}: x and y are keyed differently')
+        return list(K[1]), list(SK[1])
+
+    def unary_wrapper(self):
+        fn = self.funcs.get('apply_unary_rules')
+        a = fn.args if fn is not None else None
+        if fn is None or [p.arg for p in a.args] != ['x', 'unary_rules'] or a.vararg or a.kwarg or a.kwonlyargs or a.defaults or fn.decorator_list:
+            raise Fail('apply_unary_rules(x, unary_rules) not found')
+        W = 'apply_unary_rules'
+        want_iter = ast.dump(ast.parse('unary_rules[x]', mode='eval').body)
+
+        def benv(r):
+            if r in ('x', 'unary_rules'):
+                raise Fail(f'{W}: the loop variable shadows a parameter')
+            return {'x': E('param', ('x',), CAT), r: E('param', ('result',), CAT), '__stack': (W,)}
+
+        def fall(e):
+            raise Fail(f'{W}: a path through the loop body appends nothing')
+
+        def ret(v, e):
+            raise Fail(f'{W}: return inside the loop')
+
+        def value(n, env):
+            if isinstance(n, ast.Name):
+                if n.id not in env:
+                    raise Fail(f'{W}: name {n.id}')
+                return env[n.id]
+            if (isinstance(n, ast.List) and not n.elts) or (isinstance(n, ast.Call) and isinstance(n.func, ast.Name) and n.func.id == 'list' and not n.args and not n.keywords):
+                return ('list', None)
+            if isinstance(n, ast.ListComp) and len(n.generators) == 1:
+                g = n.generators[0]
+                if not g.ifs and not g.is_async and isinstance(g.target, ast.Name) and ast.dump(g.iter) == want_iter and not ({'x', 'unary_rules'} & set(env)):
+                    self.nodes = 0
+                    return ('list', ('map', self.val(n.elt, benv(g.target.id), lambda v: self.leaf(v, 'unary'))))
+            raise Fail(f'{W}: unsupported expression ' + ast.dump(n)[:100])
+
+        def atom(t, env):
+            if (isinstance(t, ast.Compare) and len(t.ops) == 1 and isinstance(t.ops[0], (ast.In, ast.NotIn)) and isinstance(t.left, ast.Name) and t.left.id == 'x'
+                    and isinstance(t.comparators[0], ast.Name) and t.comparators[0].id == 'unary_rules' and not ({'x', 'unary_rules'} & set(env))):
+                return 'in', isinstance(t.ops[0], ast.In)
+            raise Fail(f'{W}: unsupported test ' + ast.dump(t)[:120])
+
+        def loop(st, env):
+            if not (isinstance(st.target, ast.Name) and ast.dump(st.iter) == want_iter) or ({'x', 'unary_rules'} & set(env)):
+                raise Fail(f'{W}: unexpected loop')
+            filled = []
+
+            def append(L, node, e, rest):
+                if rest:
+                    raise Fail(f'{W}: statements after the append')
+                if L in e or env.get(L) != ('list', None):
+                    raise Fail(f'{W}: the loop does not fill a fresh empty list')
+                filled.append(L)
+                return self.val(node, e, lambda v: self.leaf(v, 'unary'))
+            self.nodes = 0
+            body = self.stmts(st.body, benv(st.target.id), Ctx(ret=ret, fall=fall, append=append))
+            if len(set(filled)) != 1:
+                raise Fail(f'{W}: the loop fills more than one list')
+            env[filled[0]] = ('list', ('map', body))
+
+        tree = self.wrapper(fn, atom, value, loop)
+        if not (tree[0] == 'if' and tree[1] == 'in' and tree[3] == ('ret', ('list', None)) and tree[2][0] == 'ret'
+                and tree[2][1][1] is not None and tree[2][1][1][0] == 'map'):
+            raise Fail(f'{W}: the function is not `one result per entry of unary_rules[x] if x is a key, else []`')
+        return tree[2][1][1][1]
 
     # ---- whole module -------------------------------------------------------------------------------
     def combinator_names(self):
         for n in self.mod.body:
             if isinstance(n, (ast.Assign, ast.AnnAssign)):
                 tg = n.targets[0] if isinstance(n, ast.Assign) else n.target
-                if isinstance(tg, ast.Name) and tg.id == 'combinators' and isinstance(n.value, ast.List) and all(isinstance(e, ast.Name) for e in n.value.elts):
+                if isinstance(tg, ast.Name) and tg.id == 'combinators':
+                    if (not isinstance(n.value, ast.List) or not all(isinstance(e, ast.Name) for e in n.value.elts)
+                            or sum(1 for m in ast.walk(self.mod) if isinstance(m, ast.Name) and m.id == 'combinators' and isinstance(m.ctx, (ast.Store, ast.Del))) != 1):
+                        break
                     return [e.id for e in n.value.elts]
-        raise Fail('no literal `combinators` list')
-
-    def binary_wrapper(self):
-        """apply_binary_rules: which features are erased for the rule key and for the seen-rule key"""
-        fn = self.funcs.get('apply_binary_rules')
-        if fn is None or [a.arg for a in fn.args.args] != ['x', 'y', 'seen_rules']:
-            raise Fail('apply_binary_rules(x, y, seen_rules) not found')
-
-        def clear_args(node, var):
-            if isinstance(node, ast.Name) and node.id == var:
-                return []
-            if (isinstance(node, ast.Call) and isinstance(node.func, ast.Attribute) and node.func.attr == 'clear_features'
-                    and isinstance(node.func.value, ast.Name) and node.func.value.id == var
-                    and all(isinstance(a, ast.Constant) and isinstance(a.value, str) for a in node.args)):
-                return [a.value for a in node.args]
-            raise Fail('apply_binary_rules: unsupported key component')
-        keys = {}
-        body = [s for s in fn.body if not (isinstance(s, ast.Expr) and isinstance(s.value, ast.Constant))]
-        i = 0
-        while i < len(body) and isinstance(body[i], ast.Assign) and isinstance(body[i].value, ast.Tuple):
-            tg = body[i].targets[0].id
-            a, b = body[i].value.elts
-            ca, cb = clear_args(a, 'x'), clear_args(b, 'y')
-            if ca != cb:
-                raise Fail('apply_binary_rules: x and y are keyed differently')
-            keys[tg] = ca
-            i += 1
-        rest = body[i:]
-        ok = (len(rest) == 3 and isinstance(rest[0], ast.Assign) and isinstance(rest[0].value, ast.List) and not rest[0].value.elts
-              and isinstance(rest[1], ast.If) and isinstance(rest[2], ast.Return))
-        if not ok:
-            raise Fail('apply_binary_rules: unexpected body shape')
-        t = rest[1].test
-        if not (isinstance(t, ast.BoolOp) and isinstance(t.op, ast.Or) and len(t.values) == 2
-                and ast.dump(t.values[0]) == ast.dump(ast.parse('seen_rules is None', mode='eval').body)
-                and isinstance(t.values[1], ast.Compare) and isinstance(t.values[1].ops[0], ast.In)
-                and isinstance(t.values[1].left, ast.Name) and t.values[1].left.id in keys
-                and isinstance(t.values[1].comparators[0], ast.Name) and t.values[1].comparators[0].id == 'seen_rules'):
-            raise Fail('apply_binary_rules: unexpected seen-rule gate')
-        seen_key = keys[t.values[1].left.id]
-        loop = rest[1].body
-        want = ast.parse('for combinator in combinators:\n    result = combinator(*key)\n    if result is not None:\n        results.append(result)').body
-        if len(loop) != 1 or ast.dump(loop[0]) != ast.dump(want[0]) or rest[1].orelse or 'key' not in keys:
-            raise Fail('apply_binary_rules: unexpected combinator loop')
-        return keys['key'], seen_key
-
-    def unary_body(self):
-        fn = self.funcs.get('apply_unary_rules')
-        if fn is None or [a.arg for a in fn.args.args] != ['x', 'unary_rules']:
-            raise Fail('apply_unary_rules(x, unary_rules) not found')
-        body = [s for s in fn.body if not (isinstance(s, ast.Expr) and isinstance(s.value, ast.Constant))]
-        want0 = ast.parse('if x not in unary_rules:\n    return []').body[0]
-        ok = (len(body) == 4 and ast.dump(body[0]) == ast.dump(want0) and isinstance(body[1], ast.Assign)
-              and isinstance(body[2], ast.For) and isinstance(body[2].target, ast.Name) and body[2].target.id == 'result'
-              and ast.dump(body[2].iter) == ast.dump(ast.parse('unary_rules[x]', mode='eval').body)
-              and isinstance(body[3], ast.Return) and isinstance(body[3].value, ast.Name) and body[3].value.id == 'results')
-        if not ok:
-            raise Fail('apply_unary_rules: unexpected body shape')
-        stmts = list(body[2].body)
-        last = stmts[-1]
-        if not (isinstance(last, ast.Expr) and isinstance(last.value, ast.Call) and isinstance(last.value.func, ast.Attribute)
-                and last.value.func.attr == 'append' and len(last.value.args) == 1
-                and isinstance(last.value.args[0], ast.Call) and isinstance(last.value.args[0].func, ast.Name)
-                and last.value.args[0].func.id == 'CombinatorResult'):
-            raise Fail('apply_unary_rules: loop does not end in results.append(CombinatorResult(...))')
-        env = {'x': 'x', 'result': 'result'}
-        # the statements before the append are local assignments; reuse the statement translator with the append as a "return"
-        ret = ast.Return(value=last.value.args[0])
-        txt = self.s(stmts[:-1] + [ret], env, 'comb')
-        return txt
+        raise Fail('no literal `combinators` list (assigned once)')
 
     def run(self):
         combs = self.combinator_names()
-        bodies = {}
-        for c in combs:
-            fn = self.funcs.get(c)
-            if fn is None or [a.arg for a in fn.args.args] != ['x', 'y']:
-                raise Fail(f'combinator {c}(x, y) not found')
-            bodies[c] = self.s(fn.body, {'x': 'x', 'y': 'y'}, 'comb')
+        if len(set(combs)) != len(combs):
+            raise Fail('a combinator is listed twice')
+        trees = {c: self.combinator(c) for c in combs}
         key_clear, seen_clear = self.binary_wrapper()
-        ubody = self.unary_body()
+        ubody = self.unary_wrapper()
+        bodies = {c: self.pc(self.simp(trees[c], {}, {}, {}), 0, {}, 1) for c in combs}
+        utext = self.pc(self.simp(ubody, {}, {}, {}), 0, {}, 1)
         N = self.name
         out = [f'(* GENERATED by translate/gen_grammar.py from depccg/grammar/{N.lower()}.py - do not edit *)',
                'From Coq Require Import List NArith Bool.', 'Import ListNotations.',
@@ -328,14 +952,12 @@ class T:
         out.append('Example literals_readable : forallb (fun o => match o with Some _ => true | None => false end) ['
                    + '; '.join(f'{nm}_src' for nm in self.lits.values()) + '] = true.')
         out.append('Proof. vm_compute. reflexivity. Qed.')
-        for h, (args, ret, b) in self.helpers.items():
-            out.append(f'Definition {h[1:]} ({" ".join(args)} : cat) : res {ret} :=\n  {b}.')
         for c in combs:
-            out.append(f'Definition {c} (x y : cat) : res (option cres) :=\n  {bodies[c]}.')
+            out.append(f'Definition {c} (x y : cat) : res (option cres) :=\n{bodies[c]}.')
         out.append('Definition combinators : list combinator := [' + '; '.join(combs) + '].')
         out.append(f'Definition key_clear : list text := {lits(key_clear)}.')
         out.append(f'Definition seen_clear : list text := {lits(seen_clear)}.')
-        out.append(f'Definition unary_body (x result : cat) : res cres :=\n  do o_ <- {ubody}; match o_ with Some r_ => Ok_ r_ | None => Err TypeErr end.')
+        out.append(f'Definition unary_body (x result : cat) : res cres :=\n{utext}.')
         out.append('Definition apply_binary_rules (x y : cat) (seen : option seen_t) : res (list cres) := apply_binary combinators key_clear seen_clear x y seen.')
         out.append('Definition apply_unary_rules (x : cat) (t : unary_table) : res (list cres) := apply_unary unary_body x t.')
         out.append(f'Definition pattern_vars : list text := {lits(sorted(self.pattern_vars))}.')
@@ -347,16 +969,18 @@ def gen_guess(src):
     fn = next((n for n in mod.body if isinstance(n, ast.FunctionDef) and n.name == 'guess_combinator_by_triplet'), None)
     if fn is None or [a.arg for a in fn.args.args] != ['binary_rules', 'target', 'x', 'y']:
         raise Fail('guess_combinator_by_triplet(binary_rules, target, x, y) not found')
-    body = [s for s in fn.body if not (isinstance(s, ast.Expr) and isinstance(s.value, ast.Constant))]
-    if not (len(body) == 2 and isinstance(body[0], ast.For) and isinstance(body[1], ast.Return)):
+    body = [s for s in fn.body if not is_doc(s)]
+    if not (len(body) == 2 and isinstance(body[0], ast.For) and not body[0].orelse and isinstance(body[1], ast.Return)):
         raise Fail('guess_combinator_by_triplet: unexpected body shape')
     loop = body[0]
+    lbody = [s for s in loop.body if not is_doc(s)]
     if not (ast.dump(loop.iter) == ast.dump(ast.parse('binary_rules(x, y)', mode='eval').body) and isinstance(loop.target, ast.Name)
-            and len(loop.body) == 1 and isinstance(loop.body[0], ast.If)
-            and ast.dump(loop.body[0].test) == ast.dump(ast.parse(f'{loop.target.id}.cat == target', mode='eval').body)
-            and len(loop.body[0].body) == 1 and not loop.body[0].orelse):
+            and loop.target.id not in ('binary_rules', 'target', 'x', 'y')
+            and len(lbody) == 1 and isinstance(lbody[0], ast.If)
+            and ast.dump(lbody[0].test) == ast.dump(ast.parse(f'{loop.target.id}.cat == target', mode='eval').body)
+            and len([s for s in lbody[0].body if not is_doc(s)]) == 1 and not lbody[0].orelse):
         raise Fail('guess_combinator_by_triplet: unexpected loop')
-    inner = loop.body[0].body[0]
+    inner = [s for s in lbody[0].body if not is_doc(s)][0]
     if isinstance(inner, ast.Return) and isinstance(inner.value, ast.Name) and inner.value.id == loop.target.id:
         found = 'Some r_ => r_'
     elif isinstance(inner, ast.Expr) and isinstance(inner.value, ast.Name):
@@ -364,10 +988,12 @@ def gen_guess(src):
     else:
         raise Fail('guess_combinator_by_triplet: unexpected statement in the loop')
     v = body[1].value
-    if not (isinstance(v, ast.Call) and isinstance(v.func, ast.Name) and v.func.id == 'CombinatorResult'):
+    if not (isinstance(v, ast.Call) and isinstance(v.func, ast.Name) and v.func.id == 'CombinatorResult' and not v.args):
         raise Fail('guess_combinator_by_triplet: default is not a CombinatorResult')
     kw = {k.arg: k.value for k in v.keywords}
-    if not (isinstance(kw.get('cat'), ast.Name) and kw['cat'].id == 'target' and all(isinstance(kw.get(k), ast.Constant) for k in ('op_string', 'op_symbol', 'head_is_left'))):
+    if not (set(kw) == {'cat', 'op_string', 'op_symbol', 'head_is_left'} and isinstance(kw.get('cat'), ast.Name) and kw['cat'].id == 'target'
+            and cstr(kw['op_string']) is not None and cstr(kw['op_symbol']) is not None
+            and isinstance(kw['head_is_left'], ast.Constant) and isinstance(kw['head_is_left'].value, bool)):
         raise Fail('guess_combinator_by_triplet: unexpected default fields')
     out = ['(* GENERATED by translate/gen_grammar.py from depccg/grammar/__init__.py - do not edit *)',
            'From Coq Require Import List NArith Bool.', 'Import ListNotations.', 'Require Import Cat Unify GramPrims.', 'Open Scope N_scope.', '',
@@ -378,16 +1004,35 @@ def gen_guess(src):
     return '\n'.join(out) + '\n'
 
 
+PARTS = {'en': ('en.py', 'GenEn.v', lambda s: T(s, 'En').run()),
+         'ja': ('ja.py', 'GenJa.v', lambda s: T(s, 'Ja').run()),
+         'guess': ('__init__.py', 'GenGuess.v', gen_guess)}
+
+
+def main(argv):
+    repo, dst = argv[0], argv[1]
+    parts = argv[2:] or list(PARTS)
+    bad = []
+    for p in parts:
+        if p not in PARTS:
+            sys.exit(f'translator(gen_grammar): unknown part {p!r} (en, ja, guess)')
+        src, out, f = PARTS[p]
+        rel = f'depccg/grammar/{src}'
+        try:
+            txt = f(open(os.path.join(repo, 'depccg', 'grammar', src), encoding='utf-8').read())
+        except Fail as e:
+            bad.append(f'translator(gen_grammar): {rel} -> {out}: unsupported or missing construct: {e}')
+            continue
+        except RecursionError:
+            bad.append(f'translator(gen_grammar): {rel} -> {out}: unsupported or missing construct: nesting too deep')
+            continue
+        except (OSError, SyntaxError) as e:
+            bad.append(f'translator(gen_grammar): {rel} -> {out}: cannot read source: {e}')
+            continue
+        write_if_changed(os.path.join(dst, out), txt)
+    if bad:
+        sys.exit('\n'.join(bad))
+
+
 if __name__ == '__main__':
-    repo, dst = sys.argv[1], sys.argv[2]
-    try:
-        g = os.path.join(repo, 'depccg', 'grammar')
-        outs = {'GenEn.v': T(open(os.path.join(g, 'en.py'), encoding='utf-8').read(), 'En').run(),
-                'GenJa.v': T(open(os.path.join(g, 'ja.py'), encoding='utf-8').read(), 'Ja').run(),
-                'GenGuess.v': gen_guess(open(os.path.join(g, '__init__.py'), encoding='utf-8').read())}
-    except Fail as e:
-        sys.exit(f'translator(gen_grammar): unsupported or missing construct: {e}')
-    except (OSError, SyntaxError) as e:
-        sys.exit(f'translator(gen_grammar): cannot read source: {e}')
-    for fn, txt in outs.items():
-        write_if_changed(os.path.join(dst, fn), txt)
+    main(sys.argv[1:])
